@@ -37,6 +37,8 @@ enum Behav {
 	B_INDEX_SHORT,        // aggr: a lower chain's index is not longer than the next chain's
 	B_INDEX_PREFIX,       // aggr: a lower chain's index does not start with the next chain's index
 	B_INDEX_SHAPE,        // aggr: the last index element of a chain does not describe its link shape
+	B_STATUS_CONTENT,     // non-zero status (ordinary codes and multiples of 2^32) on a reply that otherwise carries honest content
+	B_EXTRA_LINKS,        // ext: surplus right links at the input end / surplus left links at the far end of a genuine chain
 	B__COUNT
 };
 const char *behav_name(int b);
